@@ -44,11 +44,25 @@ pub fn block_on<F: std::future::Future>(f: F) -> F::Output {
 
 pub struct Script {
     items: std::vec::IntoIter<Vec<u8>>,
+    /// the stream raises an error instead of yielding the chunk with this index (C18: scripted faulty responses)
+    fail_at: Option<usize>,
+    pos: usize,
 }
 
 impl Script {
     pub fn new(chunks: Vec<Vec<u8>>) -> Script {
-        Script { items: chunks.into_iter() }
+        Script { items: chunks.into_iter(), fail_at: None, pos: 0 }
+    }
+    pub fn failing(chunks: Vec<Vec<u8>>, fail_at: Option<usize>) -> Script {
+        Script { items: chunks.into_iter(), fail_at, pos: 0 }
+    }
+    fn step(&mut self) -> Option<Result<Bytes, Error>> {
+        if self.fail_at == Some(self.pos) {
+            self.pos += 1;
+            return Some(Err(Error::internal_safe("scripted stream failure")));
+        }
+        self.pos += 1;
+        self.items.next().map(|b| Ok(Bytes::from(b)))
     }
     pub fn collect(self) -> Vec<u8> {
         self.items.flatten().collect()
@@ -58,14 +72,14 @@ impl Script {
 impl Iterator for Script {
     type Item = Result<Bytes, Error>;
     fn next(&mut self) -> Option<Self::Item> {
-        self.items.next().map(|b| Ok(Bytes::from(b)))
+        self.step()
     }
 }
 
 impl Stream for Script {
     type Item = Result<Bytes, Error>;
     fn poll_next(mut self: Pin<&mut Self>, _: &mut Context<'_>) -> Poll<Option<Self::Item>> {
-        Poll::Ready(self.items.next().map(|b| Ok(Bytes::from(b))))
+        Poll::Ready(self.step())
     }
 }
 
@@ -378,6 +392,13 @@ impl Loop {
                         headers.insert(name, v);
                     }
                 }
+                "append_header" => {
+                    // one more header LINE with this name (several Accept lines, ...)
+                    let name = HeaderName::from_bytes(s("name").as_bytes()).unwrap();
+                    if let Ok(v) = HeaderValue::from_str(&s("value")) {
+                        headers.append(name, v);
+                    }
+                }
                 "dup_header" => {
                     let name = HeaderName::from_bytes(s("name").as_bytes()).unwrap();
                     let v = headers.get(&name).cloned().unwrap_or_else(|| HeaderValue::from_str(&s("value")).unwrap());
@@ -511,8 +532,23 @@ impl Loop {
                     h.insert(http::header::CONTENT_TYPE, HeaderValue::from_static("application/json"));
                     (conjure_serde::json::to_vec(&v).map_err(Error::internal_safe)?, h)
                 } else { (buf, rheaders) };
-                let chunks: Vec<Vec<u8>> = if buf.is_empty() { vec![] } else { buf.chunks((buf.len() / chunk).max(1)).map(|c| c.to_vec()).collect() };
-                let mut resp = Response::new(Script::new(chunks));
+                let mut chunks: Vec<Vec<u8>> = if buf.is_empty() { vec![] } else { buf.chunks((buf.len() / chunk).max(1)).map(|c| c.to_vec()).collect() };
+                // C18: scripted responses - the server's answer is replaced piece by piece
+                let (mut status, mut rheaders, mut fail_at) = (status, rheaders, None);
+                for m in &self.mutations {
+                    match m["op"].as_str().unwrap_or("") {
+                        "resp_status" => status = http::StatusCode::from_u16(m["status"].as_u64().unwrap() as u16).unwrap(),
+                        "resp_ctype" => match m["value"].as_str() {
+                            Some(v) => { rheaders.insert(http::header::CONTENT_TYPE, HeaderValue::from_bytes(v.as_bytes()).unwrap()); }
+                            None => { rheaders.remove(http::header::CONTENT_TYPE); }
+                        },
+                        "resp_chunks" => chunks = m["chunks"].as_array().unwrap().iter()
+                            .map(|c| c.as_array().unwrap().iter().map(|x| x.as_u64().unwrap() as u8).collect()).collect(),
+                        "resp_fail_at" => fail_at = m["index"].as_u64().map(|n| n as usize),
+                        _ => {}
+                    }
+                }
+                let mut resp = Response::new(Script::failing(chunks, fail_at));
                 *resp.status_mut() = status;
                 *resp.headers_mut() = rheaders;
                 Ok(resp)
